@@ -285,7 +285,7 @@ REGISTRY = {
             "programs_discarded_not_well_founded": sum((r.get("sample") or {}).get("discarded_not_well_founded", 0) for r in results if r.get("_kind") == "done"),
             "disagreements_checked": sum(len(r.get("cex", [])) for r in results if r.get("_kind") == "done"),
         },
-        technique="translation validation: for each program (the two shipped algorithms under all two_block_optimized / commuting_blocks / mask-wrapper combinations, grammar-generated programs, hand-written programs incl. differences whose right operand is a parenthesised (nested) sum, the docstring example) "
+        technique="translation validation: for each program (the two shipped algorithms under all two_block_optimized / commuting_blocks / mask-wrapper combinations, grammar-generated programs (right operands of +/- parenthesised at random), hand-written programs incl. differences whose right operand is a parenthesised (nested) sum, the docstring example) "
         "the real series_computation compiles and runs it on SYMBOLIC input series and z3 decides, for every element of every series in the returned dict (incl. deleted intermediates and products), "
         "library value != value of an independent direct interpreter of the documented semantics (vf/dslref.py); three request schedules; ill-founded elements must raise RuntimeError",
         bounds={
